@@ -212,6 +212,23 @@ def check_json(ctx: Ctx, case):
                                     ctx.fail("C06/json-hybrid-restored", f"death while {f} held {b} of {len(s[f])} bytes (statement "
                                              f"{j}): restore succeeds with a mixture: {info}", sub, two)
                                     return
+            # an *error* (exception) at every statement of the save, not only a process death
+            j = 0
+            while True:
+                write_state(work, state_o) if previous else (shutil.rmtree(work, ignore_errors=True))
+                done = raise_at(j, lambda: cal.create_checkpoint(work), jp.save_calibrator_state.__code__) == "done"
+                if done:
+                    break
+                one = dict(case, fault={"kind": "exception", "line_event": j})
+                v, info = verdict_json(work, model, snap_o, snap_n) if os.path.isdir(work) else ("raises", "no folder")
+                ctx.count(sub, one, j > 0, [f"exception->{v}"])
+                if v == "hybrid":
+                    ctx.fail("C06/json-hybrid-restored", f"an exception raised at line event {j} of the save leaves a folder that "
+                             f"restores as neither the previous nor the new checkpoint: {info}", sub, one)
+                    return
+                j += 1
+                if j > 600:
+                    raise RuntimeError("save never completed")
     finally:
         shutil.rmtree(root, ignore_errors=True)
     ctx.classes[f"{sub}:pairs-fully-enumerated"] += 1
